@@ -147,13 +147,14 @@ ASSUME_DEV = [
 def c01(pid, tier, replay):
     # key-emulating axes are keys too: their quiescence and their disconnect clean-up belong to C01
     return device_check(pid, tier, replay, ["C01_"], keys_jobs(tier) + axis_jobs("akey", [["ABS_HAT0X"], ["ABS_RX"], ["ABS_GAS"]], tier) + akeymap_jobs(tier),
-                        drivers=[devdrivers.random_keys, devdrivers.c08_batches, devdrivers.akey_mapping_batches], assumptions=ASSUME_DEV)
+                        drivers=[devdrivers.random_keys, devdrivers.random_cfg_keys, devdrivers.c08_batches, devdrivers.akey_mapping_batches],
+                        assumptions=ASSUME_DEV)
 
 
 def c02(pid, tier, replay):
     # an axis emulating a key is a key: its Note Off is pinned to its Note On the same way (C08_Pinned, C08_Off)
     return device_check(pid, tier, replay, ["C02_", "C08_Pinned", "C08_Off"], keys_jobs(tier) + akeymap_jobs(tier),
-                        drivers=[devdrivers.random_keys, devdrivers.akey_mapping_batches], assumptions=ASSUME_DEV)
+                        drivers=[devdrivers.random_keys, devdrivers.random_cfg_keys, devdrivers.akey_mapping_batches], assumptions=ASSUME_DEV)
 
 
 def c03(pid, tier, replay):
@@ -164,7 +165,7 @@ def c03(pid, tier, replay):
             jobs.append(J("collide", Variant="collide", Mode=m, OctB=0, ChanB=1))
         else:
             jobs.append(J("collide", Variant="collide", Mode=m, OctB=1, ChanB=1, split=4))
-    return device_check(pid, tier, replay, ["C03_"], jobs, drivers=[devdrivers.random_keys], assumptions=ASSUME_DEV)
+    return device_check(pid, tier, replay, ["C03_"], jobs, drivers=[devdrivers.random_keys, devdrivers.random_cfg_keys], assumptions=ASSUME_DEV)
 
 
 def c04(pid, tier, replay):
@@ -176,7 +177,7 @@ def c04(pid, tier, replay):
         jobs = [J("arith", Variant="arith", OctB=12, SemiB=13, ChanB=0, NBase=10, split=4),
                 J("arith-chan", Variant="arith", OctB=1, SemiB=1, ChanB=15, NBase=2, split=4),
                 J("pairs", Variant="pairs", OctB=2, SemiB=2, ChanB=3, TapActions=False, split=4)]
-    return device_check(pid, tier, replay, ["C04_"], jobs, drivers=[devdrivers.random_keys, devdrivers.action_axis_batches],
+    return device_check(pid, tier, replay, ["C04_"], jobs, drivers=[devdrivers.random_keys, devdrivers.random_cfg_keys, devdrivers.action_axis_batches],
                         assumptions=ASSUME_DEV)
 
 
@@ -185,7 +186,7 @@ def c13(pid, tier, replay):
     aact = [J("aact", Variant="aact", AxSet={"ABS_Z"}, OctB=1, ChanB=0, TapActions=False, HoldSet={"KEY_F9"}),
             J("aact", Variant="aact", AxSet={"ABS_HAT0X"}, OctB=1, ChanB=0, TapActions=False, HoldSet={"KEY_F9"})]
     return device_check(pid, tier, replay, ["C13_"], keys_jobs(tier) + aact,
-                        drivers=[devdrivers.random_keys, devdrivers.panic_axis_batches, devdrivers.action_axis_batches],
+                        drivers=[devdrivers.random_keys, devdrivers.random_cfg_keys, devdrivers.panic_axis_batches, devdrivers.action_axis_batches],
                         assumptions=ASSUME_DEV)
 
 
